@@ -169,10 +169,12 @@ def judge (_id : String) (lines : Array String) : Verdict := Id.run do
       let some n := unescL n | return .badop l
       let some pw := unescL pw | return .badop l
       let some g := parseGrants g | return .badop l
+      if !Spec.wfGrants g then st := st.mm s!"ill-formed table (two entries for one node, or a privilege outside the five): {l}"
       st := { st with users := setUser st.users n pw { admin := adm == "1", grants := g } }
     | ["sub", tok, adm, g] =>
       let some tok := unescL tok | return .badop l
       let some g := parseGrants g | return .badop l
+      if !Spec.wfGrants g then st := st.mm s!"ill-formed table (two entries for one node, or a privilege outside the five): {l}"
       st := { st with subs := (tok, { admin := adm == "1", grants := g }) :: st.subs.filter (fun e => e.1 ≠ tok) }
     | ["az", n, r] =>
       let some n := unescL n | return .badop l
